@@ -265,6 +265,25 @@ class ParseMCNPCell:
                 keywords['material'] = kw_list.pop()
         return keywords
 
+    SHORTHAND_RE = re.compile(r'^[0-9]*[jr]$')
+
+    @classmethod
+    def pop_transform_numbers(cls, kw_list):
+        '''Pop the numbers of an inline transformation from the keyword list.
+        The jump and repeat shorthands (``j``, ``3j``, ``2r``) are expanded;
+        a jumped entry is `None`, except in the displacement, where it is
+        zero.'''
+        tokens = []
+        while kw_list and (kw_list[-1][0] in '0123456789.+-'
+                           or cls.SHORTHAND_RE.match(kw_list[-1])):
+            tokens.append(kw_list.pop())
+        if any(cls.SHORTHAND_RE.match(token) for token in tokens):
+            values, _ = expand_data_card(tokens)
+        else:
+            values = [to_float(token) for token in tokens]
+        return [0.0 if value is None and i < 3 else value
+                for i, value in enumerate(values)]
+
     def parse_fill_kw(self, elt, kw_list):
         '''Parse the arguments of the FILL and *FILL keywords.'''
         fillid_bounds = None
@@ -288,8 +307,7 @@ class ParseMCNPCell:
             fillid_bounds = bounds
         else:
             fillid_u = int(float(first_arg))
-        while kw_list and kw_list[-1][0] in '0123456789.+-':
-            fill_params.append(to_float(kw_list.pop()))
+        fill_params = self.pop_transform_numbers(kw_list)
         if fillid_bounds is not None and fill_params:
             # numbers left over after the array: too many entries, or
             # per-element transformations (which are not supported)
@@ -311,8 +329,8 @@ class ParseMCNPCell:
                             0., 1., 0.,
                             0., 0., 1.]
         elif '*' in elt:
-            fill_params = [float(x) for x in fill_params]
-            fill_params[3:12] = list(map(to_cos, fill_params[3:12]))
+            fill_params[3:12] = [None if x is None else to_cos(x)
+                                 for x in fill_params[3:12]]
             fill_params = normalize_transform(fill_params)
         elif fill_params:
             # this is the case where the transform parameters were given inline
@@ -338,9 +356,7 @@ class ParseMCNPCell:
 
     def parse_trcl_kw(self, elt, kw_list):
         '''Parse the arguments of the TRCL and *TRCL keywords.'''
-        trcl_params = []
-        while kw_list and kw_list[-1][0] in '0123456789.+-':
-            trcl_params.append(kw_list.pop())
+        trcl_params = self.pop_transform_numbers(kw_list)
         # now handle the case where the number of the
         # transformation was given instead of the transformation
         # parameters
@@ -349,14 +365,13 @@ class ParseMCNPCell:
             trcl_params = self.transforms[trid][:12]
             # no need to apply to_cos, MIP takes care of it
         elif len(trcl_params) == 3:
-            trcl_params = [to_float(param) for param in trcl_params[:12]]
             trcl_params += [1., 0., 0.,
                             0., 1., 0.,
                             0., 0., 1.]
         elif trcl_params:
             # this is the case where the transform parameters were given inline
-            trcl_params = [to_float(x) for x in trcl_params]
             if '*' in elt:
-                trcl_params[3:12] = list(map(to_cos, trcl_params[3:12]))
+                trcl_params[3:12] = [None if x is None else to_cos(x)
+                                     for x in trcl_params[3:12]]
             trcl_params = normalize_transform(trcl_params)
         return tuple(trcl_params)
